@@ -6,7 +6,7 @@ import "github.com/compose-spec/compose-go/v2/types"
 // attributes together, an arrival route without schema validation, or size: an error or a project, in bounded time.
 func VerifC01Reported() {
 	w := vrtRoot() + "/w"
-	scen := vrtChoice("scenario", 8)
+	scen := vrtChoice("scenario", 13)
 	var m map[string]any
 	var err error
 	skipV := func(o *Options) { o.SkipValidation = true }
@@ -15,28 +15,28 @@ func VerifC01Reported() {
 		kind := []any{42, "x", []any{"o"}, nil}[vrtChoice("kind", 4)]
 		vrtYamlFile(w+"/other/base.yaml", map[string]any{"services": map[string]any{"s": map[string]any{"image": "i"}},
 			"volumes": map[string]any{"v": map[string]any{"driver": "local", "driver_opts": kind}}})
-		m, err = tcLoad(nil, nil, map[string]any{"services": map[string]any{"web": map[string]any{"extends": map[string]any{"file": "other/base.yaml", "service": "s"}}}})
+		m, err = c01Load(nil, map[string]any{"services": map[string]any{"web": map[string]any{"extends": map[string]any{"file": "other/base.yaml", "service": "s"}}}})
 	case 1: // logging.driver / options of a non-comparable kind on both sides of an extends or of a file merge
 		bad := []any{[]any{"a"}, map[string]any{"k": "v"}}[vrtChoice("kind", 2)]
 		lg := func() map[string]any { return map[string]any{"driver": bad} }
 		if vrtChoice("route", 2) == 0 {
-			m, err = tcLoad(nil, nil, map[string]any{"services": map[string]any{
+			m, err = c01Load(nil, map[string]any{"services": map[string]any{
 				"b": map[string]any{"image": "i", "logging": lg()},
 				"a": map[string]any{"extends": "b", "logging": lg()}}})
 		} else {
-			m, err = tcLoad(nil, skipV, map[string]any{"services": map[string]any{"a": map[string]any{"image": "i", "logging": lg()}}},
+			m, err = c01Load(skipV, map[string]any{"services": map[string]any{"a": map[string]any{"image": "i", "logging": lg()}}},
 				map[string]any{"services": map[string]any{"a": map[string]any{"logging": lg()}}})
 		}
 	case 2: // SkipValidation: healthcheck.test holding a non-string
-		m, err = tcLoad(nil, skipV, map[string]any{"services": map[string]any{"a": map[string]any{"image": "i", "healthcheck": map[string]any{"test": []any{1}}}}})
+		m, err = c01Load(skipV, map[string]any{"services": map[string]any{"a": map[string]any{"image": "i", "healthcheck": map[string]any{"test": []any{1}}}}})
 	case 3: // SkipValidation: ipam subnets of a non-comparable kind in two files
 		nw := func() map[string]any {
 			return map[string]any{"networks": map[string]any{"n": map[string]any{"ipam": map[string]any{"config": []any{map[string]any{"subnet": []any{1}}}}}},
 				"services": map[string]any{"a": map[string]any{"image": "i"}}}
 		}
-		m, err = tcLoad(nil, skipV, nw(), nw())
+		m, err = c01Load(skipV, nw(), nw())
 	case 4: // SkipValidation + SkipNormalization: a null service
-		m, err = tcLoad(nil, func(o *Options) { o.SkipValidation = true; o.SkipNormalization = true }, map[string]any{"services": map[string]any{"base": nil}})
+		m, err = c01Load(func(o *Options) { o.SkipValidation = true; o.SkipNormalization = true }, map[string]any{"services": map[string]any{"base": nil}})
 	case 5: // a dense acyclic dependency graph: LAYERS layers of two services, each depending on both services of the next layer
 		layers := vrtParam("LAYERS", 14)
 		svcs := map[string]any{}
@@ -50,7 +50,7 @@ func VerifC01Reported() {
 				svcs[name(l, k)] = s
 			}
 		}
-		m, err = tcLoad(nil, nil, map[string]any{"services": svcs})
+		m, err = c01Load(nil, map[string]any{"services": svcs})
 		vrtAssert("dense-acyclic-graph-loads", err == nil)
 	case 6: // an included file's own include with a relative env_file: resolved against the included project, not the process directory
 		vrtYamlFile(w+"/sub/compose.yaml", map[string]any{"include": []any{map[string]any{"path": "deeper/compose.yaml", "env_file": "my.env"}},
@@ -58,7 +58,7 @@ func VerifC01Reported() {
 		vrtFile(w+"/sub/my.env", "TAG=deep\n")
 		vrtYamlFile(w+"/sub/deeper/compose.yaml", map[string]any{"services": map[string]any{"deep": map[string]any{"image": "img:${TAG:-none}"}}})
 		vrtChdir(vrtRoot())
-		m, err = tcLoad(nil, nil, map[string]any{"include": []any{"sub/compose.yaml"}, "services": map[string]any{"top": map[string]any{"image": "i"}}})
+		m, err = c01Load(nil, map[string]any{"include": []any{"sub/compose.yaml"}, "services": map[string]any{"top": map[string]any{"image": "i"}}})
 		vrtAssert("nested-include-with-relative-env-file-loads", err == nil)
 		if err == nil {
 			vrtAssert("nested-include-env-file-used", tcSvc(m, "deep")["image"] == any("img:deep"))
@@ -68,11 +68,38 @@ func VerifC01Reported() {
 			"base": map[string]any{"extends": map[string]any{"service": "web"}, "hostname": "b"},
 			"web":  map[string]any{"extends": map[string]any{"service": "x"}, "user": "w"},
 			"x":    map[string]any{"image": "deep"}}})
-		m, err = tcLoad(nil, nil, map[string]any{"services": map[string]any{"web": map[string]any{"extends": map[string]any{"file": "other/compose.yaml", "service": "base"}}}})
+		m, err = c01Load(nil, map[string]any{"services": map[string]any{"web": map[string]any{"extends": map[string]any{"file": "other/compose.yaml", "service": "base"}}}})
 		vrtAssert("acyclic-chain-reusing-the-extending-name-loads", err == nil)
 		if err == nil {
 			s := tcSvc(m, "web")
 			vrtAssert("chain-values", s["image"] == any("deep") && s["hostname"] == any("b") && s["user"] == any("w"))
+		}
+	case 8: // the file a service extends (not schema-validated) has a bind mount whose source is not a string
+		src := []any{1, true, []any{"x"}, map[string]any{"a": 1}, nil}[vrtChoice("kind", 5)]
+		vrtYamlFile(w+"/other/base.yaml", map[string]any{"services": map[string]any{"b": map[string]any{"image": "i", "volumes": []any{map[string]any{"type": "bind", "source": src, "target": "/x"}}}}})
+		m, err = c01Load(nil, map[string]any{"services": map[string]any{"a": map[string]any{"extends": map[string]any{"file": "other/base.yaml", "service": "b"}}}})
+	case 9: // the extended file has another service whose own extends.file is not a string
+		f := []any{1, true, []any{"x"}, map[string]any{"a": 1}}[vrtChoice("kind", 4)]
+		vrtYamlFile(w+"/other/base.yaml", map[string]any{"services": map[string]any{"b": map[string]any{"image": "i"}, "c": map[string]any{"extends": map[string]any{"file": f, "service": "b"}}}})
+		m, err = c01Load(nil, map[string]any{"services": map[string]any{"a": map[string]any{"extends": map[string]any{"file": "other/base.yaml", "service": "b"}}}})
+	case 10, 11, 12: // SkipValidation, all the way to the typed project: list items and names of the wrong kind
+		item := []any{1, true, []any{"x"}, map[string]any{"a": 1}, nil}[vrtChoice("kind", 5)]
+		doc := map[string]any{"services": map[string]any{"a": map[string]any{"image": "i"}}}
+		svc := doc["services"].(map[string]any)["a"].(map[string]any)
+		switch scen {
+		case 10:
+			attr := []string{"command", "entrypoint"}[vrtChoice("attr", 2)]
+			svc[attr] = []any{"x", item}
+		case 11:
+			svc["healthcheck"] = map[string]any{"test": []any{"CMD", item}}
+		case 12:
+			sec := []string{"volumes", "networks", "secrets", "configs"}[vrtChoice("section", 4)]
+			doc[sec] = map[string]any{"v": map[string]any{"name": item, "external": map[string]any{"name": item}}}
+		}
+		p, e := tcLoadProject(nil, skipV, doc)
+		err = e
+		if p != nil {
+			m = map[string]any{"name": p.Name}
 		}
 	}
 	c01Outcome(m, err)
